@@ -429,19 +429,19 @@ def trace_and_tie(ctx):
     jobs = [lambda: ctx.theorems('OdakV.C04.Props', PROPS)]
     # shared wave recipe: transfer-function kernels per pixel, operator structure of every propagation function
     try:
-        g = recipe.kernels()                 # this property's own trace of the per-pixel transfer functions (robust to how the band-limited kernel is assembled)
+        g, _ = wrecipe.kernels()             # shared recipe: phases and band-limit masks are read off the finished kernel samples
         defs, disp = wrecipe.pipelines()
         ctx.programs += len(g.defs) + len(defs)
         ctx.obligation('translator:trace-wave(%d kernel definitions, %d pipeline terms)' % (len(g.defs), len(defs)), True)
         bad = [(f, d) for f, d in disp.items() if not (d['propagation_type'] == wrecipe.TYPE_OF[f] and d['distance_is_z'] and d['wavelength_is_lam'] and d['dx_is_dx'] and d['nu_nv'] == [4, 6])]
         ctx.obligation("translator:kernel-request-arguments(each method asks for its own kernel type with the caller's dx, wavelength, distance and the field's shape)", not bad, str(bad))
         # only the shared kernel ties this property builds on (evenness / composition of the band-limited kernel is C02's business)
-        jobs.append(lambda: ctx.compile_tie('GenWaveK', g.text(), [['Wave_TieK_as', 'Wave_TieK_tf', 'Wave_TieK_nas', 'Wave_TieK_ntf'], ['C04_TieA']]))
+        jobs.append(lambda: ctx.compile_tie('GenWaveK', g.text(), [['Wave_TieK_as', 'Wave_TieK_tf', 'Wave_TieK_nas', 'Wave_TieK_ntf'], ['C04_TieA', 'C04_TieD']]))
         jobs.append(lambda: ctx.compile_tie('GenWaveP', wrecipe.pipes_text(defs), [['Wave_TieP']]))
     except Exception as e:
         g = None
         ctx.obligation('translator:trace-wave', False, repr(e))
-        ctx.obligation('tie:C04_TieA', False, 'not attempted: traced definitions unavailable')
+        for f in ('C04_TieA', 'C04_TieD'): ctx.obligation('tie:%s' % f, False, 'not attempted: traced definitions unavailable')
     # this property's recipe: lens phases and impulse responses of both APIs
     try:
         g2, info = recipe.trace()
@@ -463,14 +463,6 @@ def trace_and_tie(ctx):
     labels = ['Print Assumptions', 'GenWaveK + kernel ties + C04_TieA', 'GenWaveP + Wave_TieP', 'GenC04(P) + C04_TieB/C']
     with ThreadPoolExecutor(max_workers=len(jobs)) as ex:
         for fu in [ex.submit(timed, j, labels[i] if len(jobs) == 4 else str(i)) for i, j in enumerate(jobs)]: fu.result()
-    # band-limit masks of both APIs (needs the compiled Run.GenWaveK and Run.GenC04)
-    import os
-    from harness.common import COQ
-    if g is not None and g2 is not None and all(os.path.exists(os.path.join(ctx.build, f + '.vo')) for f in ('GenWaveK', 'GenC04')):
-        ok, out = ctx.coqc('C04_TieD', open(os.path.join(COQ, 'tie', 'C04_TieD.v')).read())
-        ctx.obligation('tie:C04_TieD', ok, out[-2500:])
-    else:
-        ctx.obligation('tie:C04_TieD', False, 'not attempted: traced definitions unavailable')
     return g, g2
 
 
@@ -509,12 +501,6 @@ def self_check(ctx, g2):
         envn = dict(env, k=k)
         # unit sample where the function's fftshift puts it at the origin: the output is the sampled impulse response itself
         cmp('numpy impulse response', grid('nir', envn, None), np.asarray(N.impulse_response_fresnel(u, k, z, dx, lam)), 1e-9)
-        # traced numpy band-limit mask = the mask inside the real function (flat spectrum in, kernel out)
-        zb = z * 0.3
-        d0 = np.zeros((NX, NY), dtype=complex); d0[0, 0] = 1.0
-        Hb = np.fft.fftshift(np.fft.fft2(N.band_limited_angular_spectrum(d0, k, zb, dx, lam)))
-        mb = np.array([[1.0 if g2.evalf('nblm_%d_%d' % (i, j), dict(env, z=zb)) else 0.0 for j in range(NY)] for i in range(NX)])
-        cmp('numpy band-limit mask', mb, (np.abs(Hb) > 0.5).astype(float), 1e-9)
     ctx.traces += n
     ctx.obligation('translator-self-check:c04(traced lens / impulse-response samples = the real functions on %d values)' % n, bad == 0 and n > 0, '%d mismatching arrays' % bad)
 
